@@ -89,9 +89,9 @@ def run(ctx):
     lens = [65536] * 330
     data = _mk_stream(rng, packets, lens, 0)
     big.append(fc.record(data, "file", 1 << 20, 0, rng, len(lens) + 2, "trim-21MB-file"))
+    big.append(fc.record(data, "bytes", 0, 0, rng, len(lens) + 2, "trim-21MB-bytes"))
     if not q:
         big.append(fc.record(data, "sock", 0, 0, rng, len(lens) + 2, "trim-21MB-sock"))
-        big.append(fc.record(data, "bytes", 0, 0, rng, len(lens) + 2, "trim-21MB-bytes"))
     ntrim = sum(1 for r in big for e in r[4] if e["ev"] == "trim")
     ctx.extra["trim_events_observed"] = ntrim
     if ntrim == 0:
